@@ -63,6 +63,15 @@ class Stale(SubCheck):
             self.mut = {k: v for k, v in self.mut.items() if k in only_mutations}
         if extra_mutations:
             self.mut.update(extra_mutations)
+        if "imul" in self.mut and "reify" in self.mut:
+            # a pending map followed by the call that applies it, as ONE mutation: neither step alone has to invalidate
+            # anything a reader memoised (the map only becomes pending; a reify without a pending map applies nothing)
+            im, rf = self.mut["imul"], self.mut["reify"]
+
+            def imul_reify(o):
+                im(o)
+                rf(o)
+            self.mut["imul;reify"] = imul_reify
         self.measures = measures
         cases = []
         for s in sorted(self.src):
